@@ -49,15 +49,20 @@ def run_case(ci):
     obj = getattr(nds, c['cls'])(f, **kw)
     out = {}
     try:
-        xin = x0 if not (c['cls'] == 'Gradient' and n == 4) else x0.reshape(2, 2)
-        if c['cls'] == 'Gradient' and n == 4:
+        xin = x0 if not (c['cls'] == 'Gradient' and n in (4, 6)) else x0.reshape(2, n // 2)
+        if c['cls'] == 'Gradient' and n in (4, 6):
             obj2 = nds.Gradient(lambda x, s=1.0, t=0.0: f(np.ravel(x), s, t), **kw)
             r1 = obj2(xin, 2.0, t=0.5)
         else:
             r1 = obj(xin, 2.0, t=0.5)
+        layouts = []
+        if c['cls'] == 'Gradient' and n in (4, 6):
+            # the same logical 2-d x in other memory layouts: coordinates are logical (row-major), not memory order
+            for nm, xx in (('Fortran order', np.asfortranarray(xin)), ('transposed view', np.ascontiguousarray(xin.T).T)):
+                layouts.append((nm, np.asarray(obj2(xx, 2.0, t=0.5)).tolist()))
         first = list(evals)
         del evals[:]
-        r2 = obj(x0, -1.5) if not (c['cls'] == 'Gradient' and n == 4) else obj2(xin, -1.5)
+        r2 = obj(x0, -1.5) if not (c['cls'] == 'Gradient' and n in (4, 6)) else obj2(xin, -1.5)
     except Exception as ex:
         return dict(error='%s: %s' % (type(ex).__name__, str(ex)[:160]))
     tok1 = all(s == 2.0 and t == 0.5 for _, s, t in first)
@@ -71,7 +76,7 @@ def run_case(ci):
                 outside += 1
                 worst = xr.tolist()
     complex_real_moved = any(np.iscomplexobj(xe) and not np.array_equal(np.real(np.ravel(xe)), x0) for xe, _, _ in first) if c['method'] == 'complex' else False
-    return dict(r1=np.asarray(r1).tolist(), r2=np.asarray(r2).tolist(), shape=list(np.shape(r1)), tok=tok1 and tok2, outside=outside, worst=worst,
+    return dict(layouts=layouts, r1=np.asarray(r1).tolist(), r2=np.asarray(r2).tolist(), shape=list(np.shape(r1)), tok=tok1 and tok2, outside=outside, worst=worst,
                 nevals=len(first), complex_real_moved=complex_real_moved)
 
 
@@ -109,6 +114,10 @@ def run(tier, rep):
             else:
                 rep.violation('shape', dict(case=name, got=o['shape'], want=c['shape']), '%s: result shape %s, demanded %s' % (name, o['shape'], c['shape']))
                 continue
+        for nm, lv in o['layouts']:
+            if np.shape(lv) != np.shape(o['r1']) or not np.allclose(lv, o['r1'], rtol=1e-9, atol=1e-12):
+                rep.violation('layout', dict(case=name, layout=nm, got=lv, c_order=o['r1']), '%s: x given as a 2-d array in %s gives %s, in C order %s' % (name, nm, lv, o['r1']))
+                break
         if not o['tok']:
             rep.violation('args-not-forwarded', dict(case=name), '%s: extra arguments did not reach f unchanged on every evaluation' % name)
         if o['outside']:
